@@ -54,6 +54,30 @@ def J.updateAt (f : J → Option J) : J → List Name → Option J
 def J.setAt (j : J) (parentLoc : List Name) (nm : Name) (v : J) : Option J :=
   J.updateAt (fun c => c.setName nm v) j parentLoc
 
+/-- the container `vertex.default_value_for_set` creates in front of a step: `dict()` before a
+key, `list()` before an index -/
+def emptyFor : Name → J
+  | .key _ => .obj []
+  | .idx _ => .arr []
+
+/-- cascading assignment along a path of keys / indices: levels that exist are reused, each
+missing level gets an empty container of the kind the *next* name needs, finally `v` is
+assigned (`none`: a level of the wrong kind, an index that can neither be assigned nor
+appended — SetError) -/
+def J.cascadeAt : J → List Name → J → Option J
+  | _, [], _ => none
+  | j, [nm], v => j.setName nm v
+  | j, nm :: nm2 :: rest, v =>
+    match childAt (J.view j) nm with
+    | none =>
+      match J.cascadeAt (emptyFor nm2) (nm2 :: rest) v with
+      | none => none
+      | some c' => j.setName nm c'
+    | some c =>
+      match J.cascadeAt c (nm2 :: rest) v with
+      | none => none
+      | some c' => j.putChild nm c'
+
 /-- `pop` on a tree -/
 def J.popAt (j : J) (parentLoc : List Name) (nm : Name) : Option J :=
   J.updateAt (fun c => c.delName nm) j parentLoc
